@@ -358,6 +358,17 @@ def rule_validation_before_write(ctx):
     run.check("is_observable20=version == '2.0'" in norm(ro.node), R, key(ro.module.relpath, ro.qualname, "observable20-flag"),
               "the 2.0 observable reference rule is not selected by the version", file=ro.module.relpath, line=ro.node.lineno,
               function=ro.qualname, expected="is_observable20=(version == '2.0')", found="changed")
+    # ... and the extensions of 2.0 belong to observables: same rule (the built-in 2.0 ArchiveExt.contains_refs is a list of
+    # ObjectReferenceProperty -- a custom extension of that shape must be registrable, an identifier-typed one must not)
+    rx_ = prog.func(REG + "::_register_extension")
+    vcalls = [c for c in body_walk(rx_.node) if isinstance(c, ast.Call) and call_simple_name(c) == "_validate_props"]
+    okx20 = bool(vcalls) and all(any(k.arg == "is_observable20" and norm(k.value) in ("version == '2.0'", "(version == '2.0')")
+                                     for k in c.keywords) for c in vcalls)
+    run.check(okx20, R, key(rx_.module.relpath, rx_.qualname, "observable20-flag"),
+              "2.0 extensions (which extend observables) are validated with the reference rule of 2.1 / of SDOs: a custom 2.0 "
+              "extension shaped like the built-in ArchiveExt (contains_refs: list of ObjectReferenceProperty) is refused, one with "
+              "identifier-typed references is registered", file=rx_.module.relpath, line=rx_.node.lineno, function=rx_.qualname,
+              expected="_validate_props(<props>, version, is_observable20=(version == '2.0'))", found=[short(c, 80) for c in vcalls])
     # extension naming rule for 2.1
     re_ = prog.func(REG + "::_register_extension")
     tests = [n for n in body_walk(re_.node) if isinstance(n, ast.If) and "endswith('-ext')" in norm(n.test)
